@@ -44,6 +44,7 @@ type sgen struct {
 	arrAssign  bool
 	genS, genT *Decl
 	embN       int
+	enumLeaves bool
 }
 
 var basics = []string{"int", "int8", "int16", "int32", "int64", "uint", "uint8", "uint16", "uint32", "uint64", "float32", "float64", "string", "bool", "complex128", "rune", "byte"}
@@ -106,7 +107,21 @@ func (g *sgen) srcType(depth int, kind string) *Type {
 	case "basic":
 		return Basic(basics[r.Intn(len(basics))])
 	case "named":
-		return Named(g.newDecl(g.src, "SB", Basic(basics[r.Intn(len(basics))])))
+		b := basics[r.Intn(len(basics))]
+		d := g.newDecl(g.src, "SB", Basic(b))
+		if g.o.SkipCopy && r.Intn(2) == 0 && b != "bool" && b != "complex128" {
+			// the type qualifies as an enum; where it occurs on both sides it is passed through by skipCopySameType
+			// (member or not), everywhere else its partner has no members and the basic rule applies
+			lit := func(i int) string {
+				if b == "string" {
+					return fmt.Sprintf("%q", fmt.Sprintf("m%d", i))
+				}
+				return fmt.Sprint(i)
+			}
+			d.Consts = []Const{{d.Name + "MemberA", lit(1)}, {d.Name + "MemberB", lit(2)}}
+			g.enumLeaves = true
+		}
+		return Named(d)
 	case "ptr":
 		return Ptr(g.srcType(depth-1, ""))
 	case "slice":
@@ -505,6 +520,7 @@ func Structural(r *rand.Rand, name string, o StructOpts) *Case {
 		if o.SkipCopy {
 			cv.Lines = append(cv.Lines, "skipCopySameType")
 		}
+
 		if o.UseZero {
 			cv.Lines = append(cv.Lines, "useZeroValueOnPointerInconsistency")
 		}
@@ -604,6 +620,12 @@ func Structural(r *rand.Rand, name string, o StructOpts) *Case {
 	c.Patterns = []string{"./" + convPkg.Path}
 	c.Feature("format", o.Format)
 	c.Feature("samepkg", fmt.Sprint(o.SamePkg))
+	if g.enumLeaves {
+		for _, cv := range c.Convs {
+			cv.Lines = append(cv.Lines, "enum:unknown @ignore")
+		}
+		c.Feature("enumleaves", "true")
+	}
 	c.Feature("skipcopy", fmt.Sprint(o.SkipCopy))
 	c.Feature("usezero", fmt.Sprint(o.UseZero))
 	c.Feature("top", o.TopKind)
